@@ -43,3 +43,41 @@ package logical
 //@   ensures [data] len(pi) < 80 ==> forall i int :: 0 <= i && i < len(pi) ==> result[80 - len(pi) + i] == pi[i]
 //@   ensures [zero] len(pi) < 80 ==> forall j int :: 0 <= j && j < 80 - len(pi) ==> result[j] == 0
 //@   modifies nothing
+
+// ---------------------------------------------------------------------------------------------
+// Collecting signature shares for a proposed block (C15). A share enters the recovery set of round1 only
+// if it is the sender's valid share FOR THIS BLOCK'S HASH (and the beacon share for the previous
+// beacon value), under the sender's registered public share in the block's group.
+
+// round1.Update: msg is the verify message of one group member. gSignGenerator collects the block-signature
+// shares, rSignGenerator the beacon shares.
+//@ func groupSignGenerator.addWitnessForce
+//@   property C15
+//@   requires gs != nil && gs.witnessSignMap != nil
+//@   ensures [added]  add ==> !old(has(gs.witnessSignMap, hexOf(id))) && has(gs.witnessSignMap, hexOf(id)) && gs.witnessSignMap[hexOf(id)] == signature
+//@   ensures [dup]    !add ==> has(gs.witnessSignMap, hexOf(id)) == old(has(gs.witnessSignMap, hexOf(id))) && gs.witnessSignMap[hexOf(id)] == old(gs.witnessSignMap[hexOf(id)])
+//@   ensures [others] forall k string :: k != hexOf(id) ==> has(gs.witnessSignMap, k) == old(has(gs.witnessSignMap, k)) && gs.witnessSignMap[k] == old(gs.witnessSignMap[k])
+//@   modifies entries(gs.witnessSignMap), gs.groupSign
+
+//@ func groupSignGenerator.AddWitnessSign
+//@   property C15
+//@   requires gs != nil && gs.witnessSignMap != nil
+//@   ensures [added]  add ==> !old(has(gs.witnessSignMap, hexOf(id))) && has(gs.witnessSignMap, hexOf(id)) && gs.witnessSignMap[hexOf(id)] == signature
+//@   ensures [dup]    !add ==> has(gs.witnessSignMap, hexOf(id)) == old(has(gs.witnessSignMap, hexOf(id))) && gs.witnessSignMap[hexOf(id)] == old(gs.witnessSignMap[hexOf(id)])
+//@   ensures [others] forall k string :: k != hexOf(id) ==> has(gs.witnessSignMap, k) == old(has(gs.witnessSignMap, k)) && gs.witnessSignMap[k] == old(gs.witnessSignMap[k])
+//@   modifies entries(gs.witnessSignMap), gs.groupSign
+
+// Whether the block is already on chain: reads the chain and may answer the proposer; it does not touch the
+// share sets.
+//@ func round0.checkBlockExisted
+//@   option trusted
+//@   modifies nothing
+
+//@ func round1.Update
+//@   property C15
+//@   requires r != nil && r.round0 != nil && r.round0.baseRound != nil && r.bh != nil && r.preBH != nil
+//@   requires r.logger != nil && (istype(msg, *model.ConsensusVerifyMessage) ==> unbox(msg, *model.ConsensusVerifyMessage) != nil)
+//@   requires r.gSignGenerator != nil && r.rSignGenerator != nil && r.gSignGenerator != r.rSignGenerator && r.gSignGenerator.witnessSignMap != nil && r.rSignGenerator.witnessSignMap != nil && r.gSignGenerator.witnessSignMap != r.rSignGenerator.witnessSignMap
+//@   ensures [bind]   forall k string :: has(r.gSignGenerator.witnessSignMap, k) && !old(has(r.gSignGenerator.witnessSignMap, k)) ==> istype(msg, *model.ConsensusVerifyMessage) && k == hexOf(unbox(msg, *model.ConsensusVerifyMessage).SignInfo.signerID) && sigOK(memberPK(idOf(bytes(r.bh.GroupId)), unbox(msg, *model.ConsensusVerifyMessage).SignInfo.signerID), bytes(r.bh.Hash), r.gSignGenerator.witnessSignMap[k])
+//@   ensures [beacon] forall k string :: has(r.rSignGenerator.witnessSignMap, k) && !old(has(r.rSignGenerator.witnessSignMap, k)) ==> istype(msg, *model.ConsensusVerifyMessage) && k == hexOf(unbox(msg, *model.ConsensusVerifyMessage).SignInfo.signerID) && sigOK(memberPK(idOf(bytes(r.bh.GroupId)), unbox(msg, *model.ConsensusVerifyMessage).SignInfo.signerID), old(bytes(r.preBH.Random)), r.rSignGenerator.witnessSignMap[k])
+//@   ensures [keep]   forall k string :: old(has(r.gSignGenerator.witnessSignMap, k)) ==> has(r.gSignGenerator.witnessSignMap, k) && r.gSignGenerator.witnessSignMap[k] == old(r.gSignGenerator.witnessSignMap[k])
